@@ -99,6 +99,7 @@ class Trace:
         self.addr_ids = {}
         self.data_ids = {}
         self.last_sock = None
+        self.pokes = []            # (time, record id): cache entries the scenario planted itself
         # watchdog: a check must terminate whatever the code under test does
         self.dead = None           # reason the host was silenced, if it was
         self.max_blocks = 4000     # atomic blocks per scenario
@@ -106,6 +107,9 @@ class Trace:
         self._run = (None, 0)
 
     def addr_id(self, a):
+        """number of a peer: the sockaddr without the port -- (ip,) for IPv4, (ip, flowinfo, scope id) for IPv6.  The model's
+        `addr` therefore stands for the whole address part of the tuple: a reply that leaves with another flowinfo / scope id
+        than the query's source goes, for the model, to another peer"""
         return self.addr_ids.setdefault(a, len(self.addr_ids) + 1)
 
     def data_id(self, d):
@@ -160,7 +164,7 @@ class Trace:
                     return orig(self_, data, addrs)
                 if tr.silenced("rx"):
                     return None
-                own = tr.begin("rx", data=bytes(data), src=(addrs[0], addrs[1]), lis=self_, v6=len(addrs) == 4)
+                own = tr.begin("rx", data=bytes(data), src=(addrs[0], addrs[1]), src_full=tuple(addrs), akey=(addrs[0],) + tuple(addrs[2:]), lis=self_, v6=len(addrs) == 4)
                 if own:
                     tr.cur["pq"] = parse_query(zc, tr.uni, bytes(data), tr.sim.loop.ms, addrs[3] if len(addrs) == 4 else None)
                 try:
@@ -176,7 +180,7 @@ class Trace:
                     return orig(self_, msg, addr, port, transport, v6)
                 if tr.silenced("tc"):
                     return None
-                own = tr.begin("tc", addr=addr, lis=self_)
+                own = tr.begin("tc", addr=addr, akey=(addr,) + tuple(v6), lis=self_)
                 try:
                     return orig(self_, msg, addr, port, transport, v6)
                 finally:
@@ -203,7 +207,10 @@ class Trace:
                 if self_.zc is zc and tr.cur is not None:
                     seen = []
                     for i, r in enumerate(tr.uni.recs):
-                        e = zc.cache.async_get_unique(r)
+                        # the cached copy of this record, read from the store itself under the lower-cased name (what "the host
+                        # saw multicast" means; not through `async_get_unique`, which is code under test)
+                        store = zc.cache.cache.get(r.key)
+                        e = store.get(r) if store is not None else None
                         if e is not None:
                             seen.append((i, int(e.created), int(e.ttl)))
                     tr.cur["asm"] = dict(seen=seen, addr=addr, port=port, npkts=len(packets), first_now=int(packets[0].now) if packets else None,
@@ -219,7 +226,8 @@ class Trace:
         def on_send(t, src, data, addr):
             if src is not tr.host:
                 return
-            rec = dict(t=t + T0, to=(addr[0], addr[1]), data=bytes(data), sock=tr.last_sock)
+            # the full sockaddr: for IPv6 (address, port, flowinfo, scope id) -- "to that address" includes the scope of a link-local address
+            rec = dict(t=t + T0, to=(addr[0], addr[1]), to_full=tuple(addr), akey=(addr[0],) + tuple(addr[2:]), data=bytes(data), sock=tr.last_sock)
             if tr.cur is None:
                 tr.orphans.append(rec)
             else:
@@ -306,10 +314,10 @@ def block_line(tr, zc, b):
         valid, isq, hasqu, pkt = b["pq"]
         b["parsed"] = pkt
         kind = "i" if not valid else ("r" if not isq else "q " + pkt_str(pkt))
-        return "rx %d %d %d %d %d %s %s %s %s" % (b["t"], tr.addr_id(b["src"][0]), b["src"][1], tr.data_id(b["data"]), len(b["data"]),
+        return "rx %d %d %d %d %d %s %s %s %s" % (b["t"], tr.addr_id(b["akey"]), b["src"][1], tr.data_id(b["data"]), len(b["data"]),
                                                 hasqu, kind, seen_str(seen), draws_str(b["draws"]))
     if b["kind"] == "tc":
-        return "tc %d %d %s %s" % (b["t"], tr.addr_id(b["addr"]), seen_str(seen), draws_str(b["draws"]))
+        return "tc %d %d %s %s" % (b["t"], tr.addr_id(b["akey"]), seen_str(seen), draws_str(b["draws"]))
     if b["kind"] == "qf":
         return "qf %d %s" % (b["t"], C.b01(b["delayed"]))
     raise ValueError(b["kind"])
@@ -326,11 +334,12 @@ def decode_out(tr, o):
     o["msg"] = m
     o["ans"] = [tr.uni.id(r) for r in ans]
     o["add"] = [tr.uni.id(r) for r in add]
+    o["ttls"] = {tr.uni.id(r): int(r.ttl) for r in ans + add}
     if o["to"][0] in (MDNS, "ff02::fb"):
         o["mcast"] = True
         return "m:%s:%s" % (a, x)
     o["mcast"] = False
-    return "u:%d:%d:%d:%d:%s:%s" % (tr.addr_id(o["to"][0]), o["to"][1], m.id, len(m._questions), a, x)
+    return "u:%d:%d:%d:%d:%s:%s" % (tr.addr_id(o["akey"]), o["to"][1], m.id, len(m._questions), a, x)
 
 
 def block_obs(tr, b, dedupe_mcast=False):
@@ -352,12 +361,18 @@ TYPES = ["_a._tcp.local.", "_b._tcp.local."]
 def make_infos(rng, ttl_bias=None):
     from zeroconf import ServiceInfo
 
+    import random as _random
+
     n = rng.choice([1, 1, 2, 2, 3])
+    # spelling of registered names: mixed case in about half of the services (drawn from a fork of the generator's state so
+    # that existing scenarios keep everything else)
+    sub = _random.Random(repr(rng.getstate()[1][:8]))
     infos = []
     for i in range(n):
         t = rng.choice(TYPES)
         share_host = i > 0 and rng.random() < 0.3
-        server = infos[0].server if share_host else "h%d.local." % i
+        cap = sub.random() < 0.5
+        server = infos[0].server if share_host else ("MyHost%d.local." if cap else "h%d.local.") % i
         addrs = [socket.inet_aton("10.0.0.%d" % (i + 1))]
         if rng.random() < 0.35:
             addrs.append(socket.inet_pton(socket.AF_INET6, "fe80::%d" % (i + 1)))
@@ -366,7 +381,7 @@ def make_infos(rng, ttl_bias=None):
             host_ttl, other_ttl = 120, 4500
         else:
             host_ttl, other_ttl = rng.choice(pool), rng.choice(pool)
-        infos.append(ServiceInfo(t, "s%d.%s" % (i, t), 8000 + i, addresses=addrs, server=server, properties={"k": "v%d" % i},
+        infos.append(ServiceInfo(t, ("MyPrinter%d.%s" if cap else "s%d.%s") % (i, t), 8000 + i, addresses=addrs, server=server, properties={"k": "v%d" % i},
                                  host_ttl=host_ttl, other_ttl=other_ttl))
     return infos
 
@@ -453,3 +468,35 @@ def build_long_query(rng, infos, uni, qid):
         d[0], d[1] = qid >> 8, qid & 255
         datas.append(bytes(d))
     return datas
+
+
+def sighting_gaps(tr, maxdelay=20):
+    """An assumption check that does not read the cache the way the code does: a record the host *itself* multicast (answer
+    or additional; the datagram loops back) must be in the cache snapshot of every later assembly while its TTL runs, stamped
+    no earlier than one second before that transmission (an identical datagram inside a second is not re-stamped: C16).
+    A host whose own transmissions no longer reach its cache would silently disable the one-second and quarter-TTL rules.
+    -> list of (record id, sent at, assembly at, snapshot entry)"""
+    sent = []
+    probs = []
+    flushes = []  # a later cache-flush record of the same name/type/class (RFC 6762 10.2) legitimately expires the entry
+    for b in tr.blocks:
+        if b.get("asm"):
+            seen = {i: (c, ttl) for (i, c, ttl) in b["asm"]["seen"]}
+            c = b["t"]
+            for (rid, s, ttl) in sent:
+                r0 = tr.uni.recs[rid]
+                flushed = any(f > s and k == (r0.key, r0.type, r0.class_) and fr != rid for (f, k, fr) in flushes)
+                if s + maxdelay < c < s + 1000 * ttl and not flushed and not any(pt >= s - 1000 and pr == rid for (pt, pr) in tr.pokes):
+                    e = seen.get(rid)
+                    if e is None or e[0] < s - 1000:
+                        probs.append((rid, s - T0, c - T0, e))
+        for o in b["outs"]:
+            if o.get("mcast") and o["to"][0] == MDNS:
+                for rid in o["ans"] + o["add"]:
+                    sent.append((rid, o["t"], o["ttls"].get(rid, 0)))  # the TTL as transmitted (equal records may differ in TTL)
+                    rr = tr.uni.recs[rid]
+                    if rr.unique:
+                        flushes.append((o["t"], (rr.key, rr.type, rr.class_), rid))
+        if len(sent) > 400:
+            sent = sent[-400:]
+    return probs
